@@ -114,15 +114,57 @@ func corpus() []corpusCase {
 			return ProgCase(progSpec{kind: 2, cluster: c}, Config{Sigs: sigs, NodeOrder: "binpack"}, tag, hide)
 		}
 	}
+	// replayed witness of known finding C05-signature-shortcut: the tag is computed from the run
+	progWit := func(c cycle.Cluster, w sigWitness, hide map[string]bool) func() (string, string, map[string]int) {
+		return func() (string, string, map[string]int) {
+			return ProgCase(progSpec{kind: 2, cluster: c, wit: &w}, Config{Sigs: true, NodeOrder: "binpack"}, "", hide)
+		}
+	}
+	// identical workloads in two leaf queues; queue "blocked" has nothing of lower priority to
+	// preempt, queue "victim" has: whichever queue is served first, the pending job of "victim" must
+	// preempt (the failed representatives of the preempt action are kept per queue)
+	xq := func(first string, depts map[string]string, sigs bool, actions []string) func() (string, string, map[string]int) {
+		qb := cycle.Queue{Name: "qa", Deserved: 1, OverQuota: 1, Priority: 100}
+		qv := cycle.Queue{Name: "qb", Deserved: 1, OverQuota: 1, Priority: 100}
+		c := cycle.Cluster{
+			Nodes: []core.NodeSpec{{Name: "n1", Cpu: 8000, Mem: gib(16), Gpus: 1, Pods: 110}, {Name: "n2", Cpu: 8000, Mem: gib(16), Gpus: 1, Pods: 110}},
+			Jobs: []cycle.Job{
+				{Name: "v1", Queue: "qa", Priority: 75, MinMember: 1, AgeMinutes: 30, StartedMins: 20, Pods: []core.PodSpec{unit("v1-0", "n1", R)}},
+				{Name: "v2", Queue: "qb", Priority: 50, MinMember: 1, AgeMinutes: 30, StartedMins: 20, Pods: []core.PodSpec{unit("v2-0", "n2", R)}},
+				{Name: "p1", Queue: "qa", Priority: 75, MinMember: 1, AgeMinutes: 10, Pods: []core.PodSpec{unit("p1-0", "", P)}},
+				{Name: "p2", Queue: "qb", Priority: 75, MinMember: 1, AgeMinutes: 10, Pods: []core.PodSpec{unit("p2-0", "", P)}},
+			},
+			Actions: actions,
+		}
+		if first == "blocked" {
+			c.Queues = []cycle.Queue{qb, qv}
+		} else {
+			c.Queues = []cycle.Queue{qv, qb}
+		}
+		return func() (string, string, map[string]int) {
+			return ProgCase(progSpec{kind: 2, cluster: c, depts: depts, shape: "qa=blocked,qb=victim"}, Config{Sigs: sigs, NodeOrder: "binpack"},
+				"corpus=same-workload-in-two-queues("+first+" queue created first) ", nil)
+		}
+	}
+	oneDept := map[string]string{"qa": "d1", "qb": "d1"}
+	twoDepts := map[string]string{"qa": "d1", "qb": "d2"}
+	ap := []string{"allocate", "preempt"}
+	full := []string{"allocate", "consolidation", "reclaim", "preempt"}
 	return []corpusCase{
 		{"het-binpack", alloc(het, Config{NodeOrder: "binpack"}, true, "corpus=binpack-het-default-order ")},
 		{"het-spread", alloc(het, Config{NodeOrder: "spread"}, true, "witness=binpack-het ")},
 		{"het42-perm", alloc(het42, Config{NodeOrder: "perm", Perm: map[string]int{"n1": 1, "n2": 0}}, true, "witness=binpack-het ")},
 		{"het42-binpack", alloc(het42, Config{NodeOrder: "binpack"}, true, "corpus=binpack-het-default-order ")},
 		{"sigA-off", prog(sigA, false, "corpus=sig-shortcut-off ", nil)},
-		{"sigA-on", prog(sigA, true, "witness=sig-shortcut(preemptibility) ", nil)},
+		{"sigA-on", progWit(sigA, sigWitness{"a", "b", "preemptibility"}, nil)},
 		{"sigB-off", prog(sigB, false, "corpus=sig-shortcut-off ", map[string]bool{"a": true})},
-		{"sigB-on", prog(sigB, true, "witness=sig-shortcut(minMember; gang a left out of the class encoding) ", map[string]bool{"a": true})},
+		{"sigB-on", progWit(sigB, sigWitness{"a", "b", "minMember; gang a left out of the class encoding"}, map[string]bool{"a": true})},
+		{"xq-blocked-first-on", xq("blocked", oneDept, true, ap)},
+		{"xq-victim-first-on", xq("victim", oneDept, true, ap)},
+		{"xq-blocked-first-off", xq("blocked", oneDept, false, ap)},
+		{"xq-blocked-first-on-2depts", xq("blocked", twoDepts, true, ap)},
+		{"xq-victim-first-on-2depts", xq("victim", twoDepts, true, ap)},
+		{"xq-blocked-first-on-full-cycle", xq("blocked", nil, true, full)},
 		{"empty", alloc(empty, Config{NodeOrder: "binpack"}, false, "corpus=empty ")},
 		{"limited", alloc(limited, Config{NodeOrder: "binpack"}, false, "corpus=limit ")},
 		{"limited-spread", alloc(limited, Config{NodeOrder: "spread", Sigs: true}, false, "corpus=limit ")},
@@ -145,15 +187,23 @@ func runItem(root *u.Rng, it item) result {
 		r := root.Fork(uint64(2000000 + it.i))
 		sigs := r.Bool()
 		var ps progSpec
-		if it.i%2 == 0 {
+		switch {
+		case it.i%2 == 0:
 			ps = genReclaim(r, sigs)
-		} else {
+		case it.i%4 == 1:
 			ps = genPreempt(r, sigs)
+		default:
+			// several leaf queues with the same pod shape: mostly with the signature shortcut on
+			sigs = sigs || r.Bool()
+			ps = genPreemptMulti(r, sigs)
 		}
 		cfg := genConfig(r, ps.cluster)
 		cfg.Sigs = sigs
 		t, l, st := ProgCase(ps, cfg, "", nil)
 		st[fmt.Sprintf("prog-kind:%d", ps.kind)]++
+		if ps.depts != nil {
+			st["prog-kind:2-multi-queue"]++
+		}
 		st[fmt.Sprintf("sigs:%v", sigs)]++
 		return result{Term: t, Label: l, Stats: st, Stream: "prog"}
 	default:
@@ -258,6 +308,6 @@ func Run(dir string, seed uint64, n int, tier string) error {
 		}
 		out.Sample(r.Label)
 	}
-	out.Stats["rule"] = "fixed corpus (replayed refutation witnesses under the configuration that shows them and under the default one, boundary clusters), then three streams from one splitmix64 seed: alloc = cycle.Gen clusters without gpu-memory pods (every third one tight: identical whole-GPU / CPU pods, all pending) with only the allocate action, node order binpack / spread (emulated, dominating) / fixed random permutation, scheduling signatures on/off; prog = interchangeable-class clusters (identical nodes, 1-GPU single-pod jobs, saturated) for reclaim (pending queue within quota, other queues over quota, optionally a protected third queue) and preempt (one queue, mixed priorities), consolidation action in between on/off, signatures on (pending jobs of one priority class) / off (mixed); sig = random UpdateRepresentative / IsEasierToSchedule sequences on real pod groups with chain-ordered requests. Non-trivial = at least one Cache call or one refused attempt; distinct by label."
+	out.Stats["rule"] = "fixed corpus (replayed refutation witnesses under the configuration that shows them and under the default one, boundary clusters), then three streams from one splitmix64 seed: alloc = cycle.Gen clusters without gpu-memory pods (every third one tight: identical whole-GPU / CPU pods, all pending) with only the allocate action, node order binpack / spread (emulated, dominating) / fixed random permutation, scheduling signatures on/off; prog = interchangeable-class clusters (identical nodes, 1-GPU single-pod jobs, saturated) for reclaim (pending queue within quota, other queues over quota, optionally a protected third queue) and preempt (one queue, mixed priorities; every second preempt cluster: two or three leaf queues under one / separate / mixed departments, one pod shape = one scheduling signature in all queues, per queue a role victim = runs a strictly lower-priority preemptible pod / blocked = none, or non-preemptible pending jobs over a zero quota / mixed / idle, queue priorities, creation order, quotas and usage random so that either kind of queue is served first; the pop order of the pending jobs is read off the real JobsOrderByQueues right before the action), consolidation action in between on/off, signatures on (pending jobs of one priority class per queue) / off (mixed); sig = random UpdateRepresentative / IsEasierToSchedule sequences on real pod groups with chain-ordered requests. Non-trivial = at least one Cache call or one refused attempt; distinct by label."
 	return out.Flush()
 }
